@@ -27,4 +27,15 @@ CLAIMED["C10"] = {
           "the quantifier. Known finding C10-zero-int-exponent (0e1 refused) is excluded by hypothesis zero_int_then_exp = false, exactly the class the check silences.",
   "technique": "Coq proof: scanner model on render(u) yields canonical form with exact Q value; Cmp = Qcompare (induction over digit strings) + exhaustive/random correspondence with exact rational oracle",
 }
+CLAIMED["C07"] = {
+  "text": "Part A (template/argument agreement) is a full proof by translation: tabx extracts from the Go source on every run all error codes, all templates, all "
+          "errors.Format call sites (incl. calls through the newDocumentError / NewValidatorError wrappers) with their argument counts, and all bare uses of a code as an error "
+          "value; C07_every_code_has_template, C07_site_arity and C07_bare_codes_have_no_placeholders are decided by vm_compute inside the kernel and lifted to 'for every site in "
+          "the table'. PARTIAL for the rest: 'no public method panics or hangs, every error is a library error with a position inside its source whose Error() renders' is checked "
+          "by grammar-aware and byte-level fuzzing (every testdata schema/enum/type/json + hand seeds, truncation at every offset, token mutations up to 4 KiB, every "
+          "constructor/method combination in two orders, with an intrinsic oracle), not proved; byte-level totality theorems for the scanner models are added with those models.",
+  "note": "Trusted: Coq kernel; tabx's go/ast reading of call sites (unknown shapes fail loudly); the fuzz harness' classification of error values (wrapped errors are unwrapped "
+          "with errors.Unwrap). The fuzzing part is sampling: it can miss inputs; it found and led to eight fix: commits (see known_findings.json).",
+  "technique": "Coq computed theorems over error tables translated from source (tabx) + differential-free fuzzing of the public API with an intrinsic no-panic/structured-error oracle (sampled part labelled partial)",
+}
 NOT_APPLICABLE = {}
